@@ -56,9 +56,10 @@ def flattenOnce : List (Val N) → List (Val N)
   | .arr ys :: rest => ys ++ flattenOnce rest
   | v :: rest => v :: flattenOnce rest
 
-/-- ASTIndex on an array of length n. -/
+/-- ASTIndex on an array of length n.  `index += len(slice)` cannot overflow:
+    it is only executed for a negative index, and 0 ≤ len ≤ MaxInt64. -/
 def indexArr (xs : List (Val N)) (i : Int) : Val N :=
-  let idx := if i < 0 then Slice.wrap64 (i + xs.length) else i
+  let idx := if i < 0 then i + xs.length else i
   if idx < (xs.length : Int) ∧ idx ≥ 0 then xs.getD idx.toNat .null else .null
 
 variable [NumOps N]
